@@ -19,14 +19,21 @@
    so LISTSCRIPTS returns exactly the names of the store with the active one apart and GETSCRIPT exactly the
    lines of the stored script, the server state unchanged and both buffers empty (C15_listscripts,
    C15_getscript); and whole sessions mixing all eight operations stay in step (C15_session_with_data).
-   Names in listings are assumed free of CR / LF.  The emulated rename is a composition of these operations
-   (its safety is C14); GETSCRIPT of a missing script and LOGOUT / CAPABILITY are covered by the
-   correspondence check only. *)
+   Names in listings are assumed free of CR / LF.
+   ms/SessionRename.v states the same against a FUNCTIONAL specification over the server's data only (store, active
+   script, configuration): spec_op ver o s = the value the call returns and the data the server is left with, where
+   a client whose server did not announce VERSION renames by emulation (LISTSCRIPTS, GETSCRIPT, PUTSCRIPT,
+   SETACTIVE, DELETESCRIPT: up to five commands in one call; abstractly RenameAbs.rename_abs, whose safety is C14).
+   C15_session_refines_spec: every session on which the specification is defined, of any length, returns exactly
+   the specified values and leaves the server with the specified data and both buffers empty, for any fuel above
+   the size of the store plus the length of the session.  GETSCRIPT of a missing script and LOGOUT / CAPABILITY
+   are covered by the correspondence check only. *)
 From Coq Require Import String.
 From Coq Require Import List NArith Bool Arith.
 From SV Require Import Bytes Base64 Client Transport Server Session WriterFacts StatusFacts DecodeFacts DataFacts SessionFacts SessionData.
 Import ListNotations.
 Local Open Scope nat_scope.
+From SV Require Import RenameAbs RenameData Spec SessionRename.
 
 (* the reference server, in step and authenticated, receiving the bytes of one single-status command: it parses exactly that command, answers with one status reply rendered from its abstract answer, and is in step again *)
 Theorem C15_server_receives_one_command :
@@ -230,6 +237,65 @@ Theorem C15_session_with_data_example :
      Some (VBytes (bs "stop;")); Some (VBool true); Some (VListing (Some (bs "b")) [bs "a"])].
 Proof. exact SessionData.session_data_example. Qed.
 Print Assumptions C15_session_with_data_example.
+
+(* one operation (emulated rename included) against the functional specification; the invariants of the session are kept *)
+Theorem C15_spec_op_runs :
+  forall (F : nat) (ver : bool) (o : op) (st : cstate) (w : sworld sstate) 
+    (s : sstate) (v : value) (s' : sstate),
+  c_auth st = true ->
+  has_cap (bs "VERSION") st = ver ->
+  ok_world w ->
+  same_data s (s_peer sstate w) ->
+  names_ok s ->
+  op_ok o ->
+  Datatypes.length (s_store s) < F ->
+  3 <= F ->
+  spec_op ver o s = Some (v, s') ->
+  exists (st1 : cstate) (w1 : sworld sstate),
+    runS (run_op F o st) w = (ODone v st1, w1) /\
+    c_auth st1 = true /\
+    c_caps st1 = c_caps st /\
+    ok_world w1 /\
+    same_data s' (s_peer sstate w1) /\
+    names_ok s' /\ Datatypes.length (s_store s') <= S (Datatypes.length (s_store s)).
+Proof. exact SessionRename.spec_op_runs. Qed.
+Print Assumptions C15_spec_op_runs.
+
+(* whole sessions against the functional specification, emulated rename included *)
+Theorem C15_session_refines_spec :
+  forall (ver : bool) (ops : list op) (F : nat) (st : cstate) (w : sworld sstate) 
+    (s : sstate) (vals : list value) (s' : sstate),
+  c_auth st = true ->
+  has_cap (bs "VERSION") st = ver ->
+  ok_world w ->
+  same_data s (s_peer sstate w) ->
+  names_ok s ->
+  Forall op_ok ops ->
+  Datatypes.length (s_store s) + Datatypes.length ops < F ->
+  3 <= F ->
+  spec_run ver ops s = Some (vals, s') ->
+  exists (outs : list outcome) (st' : cstate) (w' : sworld sstate),
+    run_ops_s sstate srv_react srv_connect srv_tls F ops st w = (outs, st', w') /\
+    map outcome_value outs = map Some vals /\
+    ok_world w' /\
+    same_data s' (s_peer sstate w') /\
+    names_ok s' /\ c_auth st' = true /\ c_caps st' = c_caps st.
+Proof. exact SessionRename.session_refines_spec. Qed.
+Print Assumptions C15_session_refines_spec.
+
+(* non-vacuity: a session with two emulated renames (one refused by the script quota, one of the active script) *)
+Theorem C15_session_rename_example :
+  exists s' : sstate,
+    spec_run false
+      [OPutscript (bs "b") (bs "stop;"); OSetactive (bs "b"); ORenamescript (bs "b") (bs "c");
+       ODeletescript (bs "a"); ORenamescript (bs "b") (bs "c"); OListscripts;
+       OGetscript (bs "c"); ORenamescript (bs "zz") (bs "d")] demo_server =
+    Some
+      ([VBool true; VBool true; VBool false; VBool true; VBool true;
+        VListing (Some (bs "c")) []; VBytes (bs "stop;"); VBool false], s') /\
+    s_store s' = [(bs "c", bs "stop;")] /\ s_active s' = Some (bs "c").
+Proof. exact SessionRename.session_rename_example. Qed.
+Print Assumptions C15_session_rename_example.
 
 (* what the abstract session is: the server's own exec_command, command by command *)
 Example C15_session_example :
